@@ -21,6 +21,7 @@ class State:
     ctor_counts = Counter()    # constructions / moves observed by the hooks
     inv_internal = Counter()   # invariant problems seen on library-internal objects (diagnostic)
     inv_checked = 0
+    inv_skipped = 0
     funcs = set()              # qualified names of library functions entered
     lines = set()              # (file, line) of library statements executed
     raises = Counter()         # (qualname, line, exc type) raise sites reached
@@ -30,6 +31,7 @@ class State:
 
 
 ST = State()
+_NO_INV = bool(os.environ.get("G3DV_NO_INVARIANTS"))   # diagnostics only: lets the self-test see what the query probes catch alone
 _TYPES = {}
 
 
@@ -406,6 +408,8 @@ def _dist_point_line(x, sv, dv):
 def invariants(o, deep=True):
     """list of invariant violations of a live library object ([] = fine)"""
     ST.inv_checked += 1
+    if _NO_INV:
+        return []
     k = kind(o)
     bad = []
     try:
@@ -454,6 +458,10 @@ def invariants(o, deep=True):
             bad += _inv_polyhedron(o, deep)
         elif k == "PY":
             bad += _inv_polygon(o.convex_polygon)
+    except AttributeError:
+        # the object no longer exposes the attribute an invariant reads (a refactoring,
+        # not a malformed object): that invariant is not evaluable, never an alarm
+        ST.inv_skipped += 1
     except Exception as e:   # a malformed object may not even be readable
         bad.append("invariant evaluation raised %s: %s" % (type(e).__name__, e))
     return bad
